@@ -532,6 +532,100 @@ func c05Case(c *RunCtx, transport, list, m string) {
 	}
 }
 
+// c05TokenRace: token events that arrive while the access request of a call,
+// new or auth request is outstanding. The request forwarded once the access
+// answer arrives must carry the token most recently set (the first token of a
+// connection does not invalidate the outstanding access answer, later ones
+// trigger a re-check: either way nothing may carry the older token).
+func c05TokenRace(c *RunCtx) {
+	idx := 0
+	for _, op := range []string{"call", "new", "callSubscribed", "callIndirect"} {
+		for _, initial := range []bool{false, true} {
+			for _, sets := range []int{1, 2} {
+				idx++
+				if !c.Mine(idx) {
+					continue
+				}
+				cs := map[string]interface{}{"kind": "c05tokenrace", "op": op, "initial_token": initial, "sets": sets}
+				c.WAL("C05 tokenrace %v", cs)
+				s := NewScript(HistCfg{Seed: 5, Pct: 15})
+				if !s.ok {
+					c.Inconclusive("C05 tokenrace: " + s.res.Inconclusive)
+					continue
+				}
+				g := s.Gate()
+				w := s.World()
+				w.AddModel("t.leaf", map[string]Val{"v": P(1)})
+				w.AddModel("t.a", map[string]Val{"x": P(1), "child": Ref("t.leaf")})
+				cl := s.Connect("1.2.3")
+				if cl == nil {
+					g.Stop()
+					continue
+				}
+				if initial {
+					s.Token(cl, `{"user":"u0"}`, "")
+					s.Settle()
+				}
+				target := "t.a"
+				switch op {
+				case "callSubscribed":
+					s.Req(cl, "subscribe.t.a", nil)
+					s.Settle()
+					// drop the cached verdict so that the call needs a new access answer
+					w.Reaccess("t.a")
+					s.Quiesce()
+				case "callIndirect":
+					s.Req(cl, "subscribe.t.a", nil)
+					s.Settle()
+					target = "t.leaf"
+				}
+				n0 := g.Bus.NumReqs()
+				if op == "new" {
+					s.Req(cl, "new."+target, map[string]string{"t": "t.leaf"})
+				} else {
+					s.Req(cl, "call."+target+".m", map[string]int{"x": 1})
+				}
+				s.Quiesce()
+				for k := 1; k <= sets; k++ {
+					s.Token(cl, fmt.Sprintf(`{"user":"u%d"}`, k), "")
+					s.Quiesce()
+				}
+				last := fmt.Sprintf(`{"user":"u%d"}`, sets)
+				nTok := g.Bus.NumReqs()
+				s.Settle()
+				for _, r := range g.Bus.Reqs()[nTok:] {
+					if (r.Kind == "access" || r.Kind == "call" || r.Kind == "auth") && r.CID == cl.CID && canonJSON(string(r.Token)) != canonJSON(last) {
+						s.Fail("C05", "staleToken", "request %s sent after the token was set to %s (gateway idle in between) carries token %s", r.Subject, last, r.Token)
+					}
+				}
+				forwarded := 0
+				for _, r := range g.Bus.Reqs()[n0:] {
+					if r.Kind == "call" {
+						forwarded++
+					}
+				}
+				c.Stat("c05_tokenrace_forwarded", int64(forwarded))
+				res := s.Finish()
+				g.CloseAll()
+				g.Stop()
+				c.Eval(1)
+				c.Rep.DistinctN++
+				if res.Inconclusive != "" {
+					c.Inconclusive(fmt.Sprintf("C05 tokenrace %v: %s", cs, res.Inconclusive))
+				}
+				seen := map[string]bool{}
+				for _, v := range res.Viol {
+					if seen[v.Prop+v.Sig+v.RID] {
+						continue
+					}
+					seen[v.Prop+v.Sig+v.RID] = true
+					c.Violation(VReport{Prop: v.Prop, Sig: v.Sig, RID: v.RID, Msg: fmt.Sprintf("%v: %s", cs, v.Msg), Witness: cs})
+				}
+			}
+		}
+	}
+}
+
 type c06Case struct {
 	Trigger string `json:"trigger"` // token reaccess reset
 	Verdict string `json:"verdict"` // outcome name
